@@ -13,6 +13,17 @@ ALLOWED_AXIOMS = {
 }
 
 PROPS = {
+    "C08": {
+        "n": {"quick": 600, "thorough": 15000},
+        "shards": 16,
+        "known_bitmask": True,
+        "trusted": [
+            "range producers modelled on the AST (hover element ranges, prepareRename, document symbols, links, folding, diagnostics ranges with the balance / undeclared models); composed with the lexer and parser models, so the model's ranges are computed from the TEXT alone and compared with the implementation's",
+            "references / definition / workspace-symbol / completion / load-error ranges are validated on the implementation's output only (their models live in C09 / C16)",
+        ],
+        "assumptions": ["request positions are the first or second UTF-16 unit of each element; cursor positions inside a surrogate pair are not generated"],
+        "explanation": "validator theorems (Props/C08.v); tie: symbols, links, folds, diagnostics, hover and prepareRename ranges from text through the composed models; oracle: every collected range is a well-formed in-document UTF-16 range, covers its element's text where claimed, symbols and folds are laminar",
+    },
     "C09": {
         "n": {"quick": 600, "thorough": 15000},
         "shards": 16,
